@@ -67,6 +67,29 @@ func deriveR2(r1, alt Req, vary map[string]bool) Req {
 	return r2
 }
 
+// varyKept reports whether the Vary values set earlier in the chain (pre) are
+// preserved in got: as the same leading field lines or, more liberally, as the
+// same leading field NAMES once the lines are flattened (an implementation
+// that appends ", Origin" to the last existing line preserves them as well).
+func varyKept(pre, got []string) bool {
+	if len(got) >= len(pre) && eqStrs(got[:len(pre)], pre) {
+		return true
+	}
+	flat := func(lines []string) []string {
+		var out []string
+		for _, l := range lines {
+			for _, el := range strings.Split(l, ",") {
+				if n := strings.Trim(el, " \t"); n != "" {
+					out = append(out, n)
+				}
+			}
+		}
+		return out
+	}
+	a, b := flat(pre), flat(got)
+	return len(b) >= len(a) && eqStrs(b[:len(a)], a)
+}
+
 func sameHV(a, b Req, key string) bool {
 	va, oka := a.Get(key)
 	vb, okb := b.Get(key)
@@ -162,7 +185,7 @@ func c10Check(c C10Case, rec *Recorder) *Disc {
 		}
 	}
 	got := resp1.Hdr[hVary]
-	if len(got) < len(pre) || !eqStrs(got[:len(pre)], pre) {
+	if !varyKept(pre, got) {
 		return discf("cfg %+v debug=%v request {%s}: Vary set earlier in the chain %q is not preserved as a prefix of the response's Vary %q", c.Cfg, c.Debug, c.R1.Brief(), pre, got)
 	}
 	for _, h := range c.Preset {
